@@ -234,16 +234,16 @@ def run(ctx, focus='C05'):
     P = probes()
     rng = ctx.rng
     cases = list(CORPUS)
-    n_rand = 500 if ctx.tier == 'quick' else 6000
+    n_rand = 500 if ctx.tier == 'quick' else 3000
     max_len = 10 if ctx.tier == 'quick' else 30
     for _ in range(n_rand):
         cases.append(gen_history(rng, rng.randint(2, max_len), focus))
     if focus == 'C05':
         ex = list(exhaustive_histories(1)) if ctx.tier == 'quick' else list(exhaustive_histories(2))
-        if ctx.tier == 'thorough' and len(ex) > 60000:
-            ex = rng.sample(ex, 60000)
+        if ctx.tier == 'thorough' and len(ex) > 8000:
+            ex = rng.sample(ex, 8000)
         cases += ex
-        ctx.cov['exhaustive_part'] = f"{len(ex)} histories: every depth-{1 if ctx.tier == 'quick' else 2} sequence of 1-2 record datagrams over a reduced alphabet x clock steps"
+        ctx.cov['exhaustive_part'] = f"{len(ex)} histories: {'every' if ctx.tier == 'quick' else 'a sample of the'} depth-{1 if ctx.tier == 'quick' else 2} sequence(s) of 1-2 record datagrams over a reduced alphabet x clock steps"
     ctx.log(f"{len(cases)} histories")
     coq_cases, fails = [], []
     for listeners, hist in cases:
